@@ -393,8 +393,9 @@ def coq_case(c, o):
     else:
         real = "RBad"
     rt = coq_list(coq_tok(a, b) for a, b in (o.get("toks") or []))
-    return "{| wfclaim := %s; tight := %s; src := %s; rtoks := %s; real := %s |}" % (
-        "true" if c["wf"] else "false", "true" if c["tight"] else "false", coq_expr(c["deco"]), rt, real)
+    return "{| wfclaim := %s; tabclaim := %s; tight := %s; src := %s; rtoks := %s; real := %s |}" % (
+        "true" if c["wf"] else "false", "true" if c.get("tab") else "false", "true" if c["tight"] else "false",
+        coq_expr(c["deco"]), rt, real)
 
 
 # ---------------------------------------------------------------- generators
@@ -501,6 +502,45 @@ def raw_trees():
         for r in LRAW:
             out.append(["asg", c, ["raw", r], ["int", 3]])
             out.append(["bin", "OAdd", ["int", 1], ["asg", c, ["raw", r], ["bin", "OMul", ["var", 1], ["int", 2]]]])
+    return out
+
+
+def chain_trees(quick):
+    """x op1 PREFIX y op2 z written WITHOUT parentheses, for every binary / assignment operator op1 and op2 and every
+    prefix operator and cast: the tree the table dictates.  The prefix operator's operand ends before op2 unless op2 binds
+    tighter than a prefix (`**`) or is an assignment (whose target is the variable right of the prefix); then the two
+    binary operators are resolved by their rows (left-associative on the same row)."""
+    A, B, C = ["var", 0], ["var", 1], ["var", 2]
+    ops1 = [("bin", c) for c, _, _ in BIN] + [("asg", c) for c, _ in ASG]
+    ops2 = list(ops1)
+    pres = [("un", c) for c, _ in UN] + [("cast", k) for k in range(4)]
+
+    def mk(kind, c, l, r):
+        return [kind, c, l, r]
+
+    def lvl(kind, c):
+        return BIN_LVL[c] if kind == "bin" else 0
+
+    out = []
+    idx = 0
+    for k1, c1 in ops1:
+        for k2, c2 in ops2:
+            for pi, (pk, pc) in enumerate(pres):
+                idx += 1
+                pow_pair = (k1 == "bin" and c1 == "OPow") or (k2 == "bin" and c2 == "OPow")
+                if quick and not pow_pair and (idx // len(pres) + pi) % len(pres) != 0:
+                    continue          # quick tier: one prefix per operator pair (rotating), all prefixes around `**`
+                if (k2 == "bin" and c2 == "OPow") or k2 == "asg":
+                    tree = mk(k1, c1, A, [pk, pc, mk(k2, c2, B, C)])
+                else:
+                    U = [pk, pc, B]
+                    if k1 == "asg":
+                        tree = mk(k1, c1, A, mk(k2, c2, U, C))
+                    elif lvl(k1, c1) >= lvl(k2, c2):
+                        tree = mk(k2, c2, mk(k1, c1, A, U), C)
+                    else:
+                        tree = mk(k1, c1, A, mk(k2, c2, U, C))
+                out.append(tree)
     return out
 
 
@@ -675,6 +715,17 @@ def main(ck):
             if npairs <= tid < nmodel - nrand and tid >= nfull:
                 styles = ["min"]
             cases += mk_cases(t, rng, tid, styles)
+        # prefix operator in the middle of an unparenthesised chain: tie (clause 3), table tree (clause 4 via tabclaim) and
+        # value against the fully parenthesised printing of the table tree
+        ntid = len(trees)
+        for k, t in enumerate(chain_trees(quick)):
+            tid = ntid + k
+            tk = toks(t, False)
+            cases.append({"tid": tid, "tree": t, "deco": t, "wf": False, "tab": True, "tight": False, "style": "chain",
+                          "text": render(tk), "eval": True, "coq": True})
+            d = pfull(t)
+            cases.append({"tid": tid, "tree": t, "deco": d, "wf": True, "tight": False, "style": "full",
+                          "text": render(toks(d, False)), "eval": True, "coq": True})
         # companions of the raw-operand cases: the same printing with each raw operand replaced by its placeholder variable
         # (checked against model and table like every other case); the real tree of the raw case must be the companion's
         # real tree with the raw operand's own tree put back
@@ -812,7 +863,7 @@ def main(ck):
     ck.samples = [c["text"] for c in (cases[:2] + cases[len(cases) // 2: len(cases) // 2 + 3] + cases[-3:])]
     ck.cov["operator_distribution"] = opdist
     ck.cov["operators_per_source_distribution"] = {str(k): v for k, v in sorted(depthdist.items())}
-    ck.cov["styles"] = {s: sum(1 for c in cases if c["style"] == s) for s in ("min", "full", "red", "drop", "compact")}
+    ck.cov["styles"] = {s: sum(1 for c in cases if c["style"] == s) for s in ("min", "full", "red", "drop", "compact", "chain")}
     ck.cov["raw_operand_cases"] = sum(1 for c in cases if not c.get("coq", True))
     ck.cov["raw_operand_cases_structurally_checked"] = raw_checked
     ck.cov["sign_fold_probes"] = len(SIGN_PROBES)
